@@ -106,6 +106,7 @@ def run(prop, tier, seed):
     rep = Report('spacing', __doc__.strip().replace('\n', ' ') + ' distinct by (document, target index, side, value); non-trivial = the target has visible text', bound='corpus x 7 spacing strings')
     docs = corpus.documents()
     if tier == 'quick': docs = [d for d in docs if '+lead' not in d[0]]
+    docs = docs + corpus.accepted_extras(lambda t: PARSER.parse(t, models.File), seed, 20 if tier == 'quick' else 200)
     for name, text in docs:
         try:
             n = len(targets(PARSER.parse(text, models.File)))
@@ -128,7 +129,7 @@ def run(prop, tier, seed):
 
 
 def replay_case(case_):
-    text = dict(corpus.documents())[case_['doc']]
+    text = corpus.lookup(case_['doc'])
     if case_.get('neighbours'): return neighbours(case_['doc'], text)
     return case(case_['doc'], text, case_['target'], case_['side'], case_['value'], case_.get('prop', 'C17'))[0]
 
